@@ -465,6 +465,9 @@ impl<'a> FnWeaver<'a> {
                 self.ghost(hi(block.brace_token.span.open()), format!(" {} ", t), 0);
             }
         }
+        if self.c.once_true.is_some() {
+            self.ghost(hi(block.brace_token.span.open()), " let ghost mut once__ = false; ".into(), -8);
+        }
         // pass A: calls, loops
         let mut a = PassA { w: self };
         a.visit_block(block);
@@ -962,6 +965,24 @@ fn temp_guard_in(e: &syn::Expr, guard_fns: &[String]) -> bool {
     v.found
 }
 
+
+/// is `e` exactly `NAME()` or `!NAME()` ?  returns Some(negated)
+fn is_plain_call_of(e: &syn::Expr, name: &str) -> Option<bool> {
+    match e {
+        syn::Expr::Call(c) if c.args.is_empty() => {
+            if let syn::Expr::Path(p) = &*c.func {
+                if p.path.is_ident(name) {
+                    return Some(false);
+                }
+            }
+            None
+        }
+        syn::Expr::Unary(u) if matches!(u.op, syn::UnOp::Not(_)) => is_plain_call_of(&u.expr, name).map(|n| !n),
+        syn::Expr::Paren(p) => is_plain_call_of(&p.expr, name),
+        _ => None,
+    }
+}
+
 fn chain_has_final_else(ei: &syn::ExprIf) -> bool {
     match ei.else_branch.as_ref().map(|(_, b)| &**b) {
         None => false,
@@ -1135,9 +1156,38 @@ impl<'x, 'a, 'ast> Visit<'ast> for PassA<'x, 'a> {
         }
         syn::visit::visit_expr_closure(self, c);
     }
+    fn visit_expr_if(&mut self, e: &'ast syn::ExprIf) {
+        if let Some((name, cl)) = self.w.c.once_true.clone() {
+            match is_plain_call_of(&e.cond, &name) {
+                Some(false) => {
+                    // `if cond() { B }`: no call after a true result; B starts knowing the result was true
+                    let t = self.w.clause_text(&cl, "once-true");
+                    let k = self.w.src[..lo(e.span())].rfind(|ch| ch == ';' || ch == '{' || ch == '}').map(|k| k + 1).unwrap_or(lo(e.span()));
+                    self.w.ghost(k, format!("\n assert({});\n", t), 8);
+                    self.w.ghost(hi(e.then_branch.brace_token.span.open()), " proof { once__ = true; } ".into(), -7);
+                }
+                Some(true) => fatal(&format!("{}: once-true: `if !{}()` is not supported", self.w.func, name)),
+                None => {}
+            }
+        }
+        syn::visit::visit_expr_if(self, e);
+    }
     fn visit_expr_while(&mut self, e: &'ast syn::ExprWhile) {
         self.w.loop_ord += 1;
         let ord = self.w.loop_ord;
+        if let Some((name, cl)) = self.w.c.once_true.clone() {
+            match is_plain_call_of(&e.cond, &name) {
+                Some(true) => {
+                    // `while !cond() { B }`: the loop is left exactly when a call returned true
+                    let t = self.w.clause_text(&cl, "once-true");
+                    let k = self.w.src[..lo(e.span())].rfind(|ch| ch == ';' || ch == '{' || ch == '}').map(|k| k + 1).unwrap_or(lo(e.span()));
+                    self.w.ghost(k, format!("\n assert({});\n", t), 8);
+                    self.w.ghost(hi(e.span()), " proof { once__ = true; } ".into(), 6);
+                }
+                Some(false) => fatal(&format!("{}: once-true: `while {}()` is not supported", self.w.func, name)),
+                None => {}
+            }
+        }
         let spec = self.loop_spec(ord);
         if !spec.is_empty() {
             self.w.ghost(lo(e.body.brace_token.span.open()), spec, 0);
